@@ -24,6 +24,7 @@ type TownOpts struct {
 	MaxPosts  int
 	Paged     bool // outboxes / reply collections spread over pages
 	Markdown  bool // some bodies are Markdown
+	Spine     bool // one long reply chain whose members have several replies each (deep and wide threads)
 }
 
 type TLink struct {
@@ -170,6 +171,9 @@ func buildTown(r *Run, opts TownOpts) *Town {
 		maxPosts = 14
 	}
 	np := 2 + t.Draw(maxPosts-1)
+	if opts.Spine {
+		np = 16 + t.Draw(10)
+	}
 	clock := simEpoch.Add(-30 * 24 * time.Hour)
 	for i := 0; i < np; i++ {
 		p := &TPost{Kind: []string{"Note", "Note", "Article", "Page", "Video", "Image", "Audio", "Document"}[t.Weighted(6, 0, 1, 1, 1, 1, 1, 1)]}
@@ -197,7 +201,15 @@ func buildTown(r *Run, opts TownOpts) *Town {
 		p.RepliesURL = fmt.Sprintf("https://%s/c/rep-%d", p.Host, n)
 		clock = clock.Add(time.Duration(1+t.Draw(600)) * time.Minute)
 		p.Published = clock
-		if len(tn.Posts) > 0 && t.Chance(3, 5) {
+		if opts.Spine && i > 0 && i < 7 {
+			// the spine: post i replies to post i-1
+			p.Parent = tn.Posts[i-1]
+			p.Parent.Replies = append(p.Parent.Replies, p)
+		} else if opts.Spine && i >= 7 && t.Chance(3, 4) {
+			// ribs: further replies to members of the spine
+			p.Parent = tn.Posts[1+t.Draw(5)]
+			p.Parent.Replies = append(p.Parent.Replies, p)
+		} else if len(tn.Posts) > 0 && t.Chance(3, 5) {
 			p.Parent = tn.Posts[t.Draw(len(tn.Posts))]
 			p.Parent.Replies = append(p.Parent.Replies, p)
 		}
